@@ -285,10 +285,6 @@ func drawLoop(t *rapid.T, label string, maxN int) gen.LoopCase {
 	return l
 }
 
-func maxVerts() int {
-	return 2000
-}
-
 // ---------------------------------------------------------------- triangles
 
 type triCase struct {
